@@ -118,6 +118,39 @@ fn main() {
     warm_up();
     let args: Vec<String> = std::env::args().collect();
     let cmd = args.get(1).map(|s| s.as_str()).unwrap_or("");
+    if cmd == "dbvariants" {
+        // diagnosis aid: which rewrites of the signature database does the loader accept?
+        for v in 1..=sut::DB_VARIANTS {
+            let t = sut::db_text_variant(v);
+            match t.parse::<huginn_net_db::Database>() {
+                Ok(_) => println!("variant {}: loads ({} bytes)", v, t.len()),
+                Err(e) => println!("variant {}: REJECTED: {}", v, e),
+            }
+        }
+        // and what do requests written from signatures get under rewrite 1?
+        #[cfg(not(huginn_net_verif_sched))]
+        {
+            use pkt::{Endpoint, Framing};
+            huginn_net_verif_rt::clock::arm(1_700_000_000_000);
+            sut::set_db_variant(1);
+            let mut r = rng::Rng::new(7);
+            for i in 0..400u16 {
+                let Some(m) = gen::http1::request_from_signature(&mut r) else { continue };
+                let mut s = sut::Sut::new(&sut::SutCfg::new(sut::Kind::Http, 16)).expect("sut");
+                let h = gen::tcp::Host { profile: 0, ts_hz: 1000, ts_base: 1, ttl: 64 };
+                let (c, sv) = (Endpoint::v4(10, 9, 9, 1, 40000 + i), Endpoint::v4(10, 9, 9, 2, 80));
+                let _ = s.deliver(&pkt::frame(&gen::tcp::syn(&h, c, sv, 1000, 0), Framing::Ethernet));
+                let o = s.deliver(&pkt::frame(&gen::tcp::data(&h, c, sv, 1001, 1, m.bytes.clone(), 0, 0, pkt::ACK | pkt::PSH), Framing::Ethernet));
+                println!("--- {}", String::from_utf8_lossy(&m.bytes).replace("\r\n", " | "));
+                for ob in o.obs {
+                    let t = ob.text;
+                    let d = t.find("diagnosis").map(|p| t[p..].chars().take(140).collect::<String>()).unwrap_or_default();
+                    println!("    {}", d);
+                }
+            }
+        }
+        return;
+    }
     let mut tier = match std::env::var("VERIF_TIER").as_deref() {
         Ok("thorough") => Tier::Thorough,
         _ => Tier::Quick,
